@@ -66,6 +66,11 @@ CHECKS = {
          'Documents are all sequences of up to 2 (thorough 3) blocks from a 20-variant grammar (paragraphs with each inline form, bullet lists with one/two items, nested list, second paragraph in an item, enumerated list, literal / doctest / code blocks, section, admonition, versionchanged/deprecated/versionadded directives with and without body, definition list, block quote) combined with no field, each of 17 fields (thorough: ordered pairs of fields), serialised to epytext, reST, google and numpy and installed as real indented triple-quoted literals. Every word is a unique token, so the oracle needs no expected strings: description tokens appear once each and in source order, literal/doctest/code blocks are character-exact after dedent, no markup residue stays in prose, each field\'s tokens sit in the table row of its entry (Parameters/a, Returns, Raises/ValueError, ...) or are reported; plaintext is reproduced exactly; @ivar/@cvar/@var fields show on their attribute. Thorough: 354 899 documents.',
          'Trusted: the serializers (validated: a parse error on a generated document is itself flagged); the mapping field -> table entry.',
          'DESIGN.md section 5, C09'),
+ 'C11': ('exploration',
+         'exhaustive enumeration of feature sets x configurations as full driver runs; complete crawl of every output tree (every href/src/id/name, search documents, model-to-page direction)',
+         'Projects are all sets of up to 2 (thorough 3 over a 14-feature core) link-producing features out of 31 (inheritance across modules, overrides, inherited docstrings with cross-references, summary cross-references, xrefs to every object kind, annotation/default/constant links, generic bases, constructors, nested classes, re-export, duplicates and subclasses of duplicates, private and hidden bases/modules/members, zope, properties, overloads, deprecation, sections, documented-only attributes, a module named like its root, non-ASCII names, two roots, a 52-module package) x up to 9 configurations (3 themes, sidebar depth 1-3, no sidebar, toc depth 0, source links). Every project is run through the real driver and the whole output tree is crawled: each relative href/src must name a written file and an existing id/name; all-documents url fields likewise; every visible module/class must have its page at obj.url and every visible function/variable its anchor. Violations are classified by clause, link producer, target category and source-page class.',
+         'Trusted: html.parser based extraction; percent-decoding of hrefs as browsers do. Absolute URLs and intersphinx links are not followed.',
+         'DESIGN.md section 5, C11'),
 }
 
 
